@@ -265,7 +265,22 @@ def crosscheck_unit(ccls, case, n=12, seed=0):
     """-> dict(compared=int, skipped=reason|None, mismatches=[...])."""
     if getattr(ccls, "lemma", False) or getattr(ccls, "abstract", False):
         return {"compared": 0, "skipped": "lemma / assumed contract (no code path)", "mismatches": []}
-    if getattr(ccls, "uses", None) and any(getattr(u[0] if isinstance(u, tuple) else u, "abstract", False) for u in ccls.uses):
+    def _blocks_native(u):
+        u = u[0] if isinstance(u, tuple) else u
+        if not getattr(u, "abstract", False):
+            return False
+        # abstract stand-ins of spec.ext that carry a native reading (a body that records into the ghost fields) can run natively
+        if u.target.startswith("spec.ext:"):
+            try:
+                import inspect as _i
+                from . import extract as _e
+                obj, owner, module = _e.lookup(u.target)
+                return "NotImplementedError" in _i.getsource(_e.raw_function(obj))
+            except Exception:
+                return True
+        return True
+
+    if getattr(ccls, "uses", None) and any(_blocks_native(u) for u in ccls.uses):
         return {"compared": 0, "skipped": "uses assumed external/ghost contracts (cannot run natively)", "mismatches": []}
     if getattr(ccls, "rely", None):
         return {"compared": 0, "skipped": "environment (rely) model", "mismatches": []}
